@@ -48,7 +48,14 @@ impl Monitor for C09 {
         let s = loop {
             let kind = *r.pick(&[0u64, 1, 2, 4, 5, 6, 8, 8]);
             let n = 2048 + r.usize_below(max_plain - 2048);
-            let p = crate::plain::make_kind(&mut r, kind, n);
+            let mut p = crate::plain::make_kind(&mut r, kind, n);
+            // a quarter of the files open with a short run of one byte (zeroed header fields, a title rule, a
+            // blank scan line): matches that reach back to the very first byte of the plaintext
+            if r.chance(1, 4) {
+                let b = *r.pick(&[0u8, 0, 0xff, b'=', b' ']);
+                let l = 4 + r.usize_below(60);
+                p.splice(0..0, std::iter::repeat(b).take(l));
+            }
             if let Some((rec, d)) = crate::comp::random_compress(&mut r, &p, Some(fam)) {
                 break streams::Stream {
                     source: rec.family,
